@@ -59,7 +59,7 @@ def bounds(tier):
 def cases(tier, seed):
     depth = 3 if tier == "quick" else 4
     out = []
-    progs = EXTRA + base_programs(tier, with_cont=False)
+    progs = EXTRA + base_programs(tier, with_cont=False, extended=True)
     for t in progs:
         if "p" in t.replace("types", "") and ("(p)" in t or "+ p" in t or "= p" in t or "{q}" in t):
             continue
